@@ -7,7 +7,8 @@ from __future__ import annotations
 
 from typing import TYPE_CHECKING, Generator, cast
 
-from exabgp.bgp.message import Message, Update
+from exabgp.bgp.message import EOR, Message, Update
+from exabgp.bgp.message.update.collection import UpdateCollection
 from exabgp.environment import getenv
 from exabgp.logger import lazyformat, lazymsg, log
 from exabgp.reactor.peer.handlers.base import MessageHandler
@@ -73,6 +74,10 @@ class UpdateHandler(MessageHandler):
 
         Stores all NLRIs in the incoming RIB cache.
         """
+        # Update, EOR and the placeholder for an UPDATE nobody asked to parse share a TYPE;
+        # only Update has parsed routes to store
+        if isinstance(message, (EOR, UpdateCollection)):
+            return
         update = cast(Update, message)
         parsed = update.data  # Already parsed by unpack_message
         self._number += 1
@@ -110,6 +115,10 @@ class UpdateHandler(MessageHandler):
 
         Same logic as sync - no async I/O needed for inbound processing.
         """
+        # Update, EOR and the placeholder for an UPDATE nobody asked to parse share a TYPE;
+        # only Update has parsed routes to store
+        if isinstance(message, (EOR, UpdateCollection)):
+            return
         update = cast(Update, message)
         parsed = update.data  # Already parsed by unpack_message
         self._number += 1
